@@ -227,6 +227,22 @@ def check_context_free(ctx):
     ctx.check(ok, "R9.1", "utils.argmax returns the first key with the maximal value", fa.node, fa,
               "body `%s`" % (ast.unparse(body[0]) if body else ""), construct="def argmax")
     ctx.floor("R9.1", "context-free predict obligations", n, 18)
+    # R9.3: TreeBandit maximises over a dictionary it assembles per row; utils.argmax returns the FIRST key with the
+    # largest value, so the arm predicted on a tie is decided by the order of the keys, which must be the order of
+    # the arm list (a copy of the bandit's arm dictionary updated under arm keys, or a dictionary built over the arm
+    # list) - not, e.g., trained arms first and the rest appended
+    from .cardinality import K, V, returned
+    tb = prog.method("_TreeBandit", "_predict_contexts")
+    ctx.saw_fn(tb)
+    for sc in ("one", "many"):
+        v, notes = returned(prog, "_TreeBandit", "_predict_contexts", sc, extra={"is_predict": V("bool", const=False)})
+        el = v.elem if v.kind == "list" else None
+        ok = el is not None and el.kind == "dict" and el.n == K and el.src in ("state", "arms")
+        ctx.check(ok, "R9.3", "_TreeBandit: the per-row expectations list the arms in arm-list order (%s)" % sc,
+                  tb.node, tb, "abstract result %r: the dictionary that is maximised and returned must have exactly "
+                  "the arms as keys, in the order of the arm list" % (v,),
+                  construct="def _TreeBandit._predict_contexts (key order) [%s]" % sc)
+
 
 
 def _draws(root, eng, config=None):
@@ -336,6 +352,7 @@ def check(ctx):
     F = facts(ctx)
     ctx.rule("R9.1", "context-free predict = argmax o predict_expectations; argmax is first-maximum")
     ctx.rule("R9.2", "is_predict only selects a final projection; same random stream consumption")
+    ctx.rule("R9.3", "dictionaries that are maximised list the arms in arm-list order")
     check_context_free(ctx)
     check_projections(ctx)
     check_streams(ctx, F)
